@@ -576,4 +576,65 @@ theorem Multi.flush_spec (cx : Ctx) (h : Cells) (m : Multi) (wh : Nat) (fill : U
       refine ⟨a2, by rw [if_neg hw2]; exact a3, ?_, a4, a5, a6⟩
       rw [a1, a3]; simp
 
+/-! ### the constructors establish `RowsCapWF` -/
+
+theorem newLin_capValid (cx : Ctx) (h : Cells) (sp : SeqSpec) :
+    CapValid (newLin cx h sp).1 (newLin cx h sp).2.s := by
+  obtain ⟨harr, hvalid, _, _⟩ := newLin_fresh cx h sp
+  refine ⟨hvalid.1, ?_, ?_⟩
+  · simp only [newLin, Heap.ofList]; omega
+  · generalize hxs : sp.cells.map (Lin.stored sp.q) = xs
+    generalize hcap : cx.grow 0 sp.cells.length = cap
+    have e : (newLin cx h sp).2.s = (h.ofList xs cap zeroQL).2 := by simp only [newLin, hxs, hcap]
+    have e1 : (newLin cx h sp).1 = (h.ofList xs cap zeroQL).1 := by simp only [newLin, hxs, hcap]
+    rw [e, e1]
+    rw [show (h.ofList xs cap zeroQL).2.arr
+          = (h.alloc (xs ++ List.replicate (max xs.length cap - xs.length) zeroQL)).2 from rfl]
+    simp only [Heap.ofList]
+    rw [Heap.arr_alloc_new]
+    simp only [List.length_append, List.length_replicate]
+    omega
+
+theorem newLins_capwf (cx : Ctx) : ∀ (sps : List SeqSpec) (h : Cells) (acc : List Lin),
+    ∃ ls, (sps.foldl (fun (acc : Cells × List Lin) sp =>
+            ((newLin cx acc.1 sp).1, acc.2 ++ [(newLin cx acc.1 sp).2])) (h, acc)).2 = acc ++ ls ∧
+      (∀ l ∈ ls, h.arrays.length ≤ l.s.arr ∧
+        CapValid (sps.foldl (fun (acc : Cells × List Lin) sp =>
+            ((newLin cx acc.1 sp).1, acc.2 ++ [(newLin cx acc.1 sp).2])) (h, acc)).1 l.s) ∧
+      ls.Pairwise (fun a b => a.s.arr ≠ b.s.arr) ∧
+      h.arrays.length ≤ (sps.foldl (fun (acc : Cells × List Lin) sp =>
+            ((newLin cx acc.1 sp).1, acc.2 ++ [(newLin cx acc.1 sp).2])) (h, acc)).1.arrays.length ∧
+      (∀ b, b < h.arrays.length → (sps.foldl (fun (acc : Cells × List Lin) sp =>
+            ((newLin cx acc.1 sp).1, acc.2 ++ [(newLin cx acc.1 sp).2])) (h, acc)).1.arr b = h.arr b) := by
+  intro sps
+  induction sps with
+  | nil => intro h acc; exact ⟨[], by simp, by simp, List.Pairwise.nil, Nat.le_refl _, fun _ _ => rfl⟩
+  | cons sp sps ih =>
+    intro h acc
+    obtain ⟨harr, _, hsize, hold⟩ := newLin_fresh cx h sp
+    have hcv := newLin_capValid cx h sp
+    obtain ⟨ls, h2, hall, hpw, hsz, hfr⟩ := ih (newLin cx h sp).1 (acc ++ [(newLin cx h sp).2])
+    simp only [List.foldl_cons]
+    refine ⟨(newLin cx h sp).2 :: ls, by rw [h2]; simp, ?_, ?_, by omega, ?_⟩
+    · intro l hl
+      rcases List.mem_cons.mp hl with e | e
+      · subst e
+        exact ⟨by omega, hcv.mono hsz (hfr _ (by rw [harr, hsize]; omega))⟩
+      · have := hall l e; exact ⟨by omega, this.2⟩
+    · refine List.pairwise_cons.mpr ⟨?_, hpw⟩
+      intro c hc
+      have := (hall c hc).1
+      rw [harr]; omega
+    · intro b hb
+      rw [hfr b (by omega), hold b hb]
+
+/-- the rows `linear.NewSeq/NewQSeq` build for a multi satisfy `RowsCapWF` -/
+theorem newLins_rowsCapWF (cx : Ctx) (h : Cells) (sps : List SeqSpec) :
+    RowsCapWF (newLins cx h sps).1 (newLins cx h sps).2 := by
+  obtain ⟨ls, h2, hall, hpw, _, _⟩ := newLins_capwf cx sps h []
+  rw [newLins_eq]
+  simp only [List.nil_append] at h2
+  rw [h2]
+  exact ⟨fun l hl => (hall l hl).2, hpw⟩
+
 end Biogo.Containers
